@@ -285,3 +285,62 @@ pub fn mismatched_labels(cfg: &Cfg) -> Verdict {
         _ => Verdict::Hold,
     }
 }
+
+/// Ligero parameter sets the field cannot serve (the Reed-Solomon domain needs rho_inv <= two-adicity in the
+/// library's accounting) are refused by `trim`; usable ones are accepted and the three keys report the same
+/// maximum / supported degree; and the OptionalRng wrapper used for "no RNG in a non-hiding context".
+pub fn ligero_unusable_params() -> Verdict {
+    use ark_ff::FftField;
+    use ark_poly_commit::linear_codes::LigeroPCParams;
+    use ark_poly_commit::{PCCommitterKey, PCUniversalParams, PCVerifierKey};
+    let ta = <SF as FftField>::TWO_ADICITY as usize;
+    for rho_inv in [ta + 1, ta + 2, 2 * ta, 200] {
+        let pp: LigeroPCParams<SF, crate::engine::ro::RoMT, crate::engine::ro::RoColHash> = LigeroPCParams::new(128, rho_inv, true, (), (), ());
+        if PCUniversalParams::max_degree(&pp) != 0 {
+            return Verdict::viol("ligero-max-degree", format!("rho_inv {} over a field of two-adicity {}: parameters report max_degree {}", rho_inv, ta, PCUniversalParams::max_degree(&pp)));
+        }
+        match catch(|| LigeroUniPC::trim(&pp, 4, 0, None)) {
+            Ok(Err(_)) | Err(_) => {}
+            Ok(Ok(_)) => return Verdict::viol("trim-accepted-unusable-params", format!("univariate Ligero trim accepted rho_inv {} over a field of two-adicity {}", rho_inv, ta)),
+        }
+        match catch(|| LigeroMlPC::trim(&pp, 4, 0, None)) {
+            Ok(Err(_)) | Err(_) => {}
+            Ok(Ok(_)) => return Verdict::viol("trim-accepted-unusable-params", format!("multilinear Ligero trim accepted rho_inv {} over a field of two-adicity {}", rho_inv, ta)),
+        }
+    }
+    for rho_inv in [2usize, 4, 16, ta - 1, ta] {
+        let pp: LigeroPCParams<SF, crate::engine::ro::RoMT, crate::engine::ro::RoColHash> = LigeroPCParams::new(128, rho_inv, true, (), (), ());
+        let (ck, vk) = match catch(|| LigeroUniPC::trim(&pp, 4, 0, None)) {
+            Ok(Ok(k)) => k,
+            // rho_inv == two-adicity leaves a maximum degree of 1: refusing is the scheme's choice
+            _ if rho_inv == ta => continue,
+            _ => return Verdict::viol("trim-refused-usable-params", format!("univariate Ligero trim refused rho_inv {}", rho_inv)),
+        };
+        let m = PCUniversalParams::max_degree(&pp);
+        if PCCommitterKey::max_degree(&ck) != m || PCVerifierKey::max_degree(&vk) != m || PCCommitterKey::supported_degree(&ck) != m || PCVerifierKey::supported_degree(&vk) != m {
+            return Verdict::viol("ligero-degree-reports", format!("rho_inv {}: parameters report max_degree {}, committer key {}/{}, verifier key {}/{}", rho_inv, m, PCCommitterKey::max_degree(&ck), PCCommitterKey::supported_degree(&ck), PCVerifierKey::max_degree(&vk), PCVerifierKey::supported_degree(&vk)));
+        }
+    }
+    // OptionalRng: with a generator it is that generator; without one every draw aborts or errs
+    {
+        use ark_poly_commit::optional_rng::OptionalRng;
+        use ark_std::rand::RngCore;
+        let mut a = OptionalRng(Some(StdRng::seed_from_u64(5)));
+        let mut b = StdRng::seed_from_u64(5);
+        let (mut x, mut y) = ([0u8; 9], [0u8; 9]);
+        a.fill_bytes(&mut x);
+        b.fill_bytes(&mut y);
+        let same = a.next_u32() == b.next_u32() && a.next_u64() == b.next_u64() && x == y && a.try_fill_bytes(&mut x).is_ok() == b.try_fill_bytes(&mut y).is_ok() && x == y;
+        let mut c: OptionalRng<StdRng> = StdRng::seed_from_u64(5).into();
+        let mut d = StdRng::seed_from_u64(5);
+        if !same || c.next_u64() != d.next_u64() {
+            return Verdict::viol("optional-rng", "OptionalRng(Some(r)) does not produce r's stream");
+        }
+        let mut buf = [0u8; 4];
+        let none_ok = catch(|| OptionalRng::<StdRng>(None).next_u32()).is_ok() || catch(|| OptionalRng::<StdRng>(None).next_u64()).is_ok() || catch(|| OptionalRng::<StdRng>(None).fill_bytes(&mut [0u8; 4])).is_ok() || OptionalRng::<StdRng>(None).try_fill_bytes(&mut buf).is_ok();
+        if none_ok {
+            return Verdict::viol("optional-rng-none-draws", "OptionalRng(None) produced randomness");
+        }
+    }
+    Verdict::Hold
+}
